@@ -108,6 +108,10 @@ def name_forms(toks):
              ('uri', uri), ('canonical-uri', curi), ('wire-bytes', wire), ('wire-memoryview', memoryview(bytearray(wire))),
              ('mixed', [uri_parts[i] if i % 2 == 0 else comps[i] for i in range(len(toks))]),
              ('iterator', iter([bytes(c) for c in comps]))]
+    mixed = forms[6][1]
+    forms += [('tuple-mixed', tuple(mixed)), ('generator-mixed', (x for x in list(mixed))), ('map-mixed', map(lambda x: x, list(mixed))),
+              ('mixed-odd', [uri_parts[i] if i % 2 == 1 else comps[i] for i in range(len(toks))]),
+              ('generator-text', (x for x in list(uri_parts)))]
     if uri_parts and toks[0] != 'E':      # without the leading slash a first empty component would be ambiguous
         forms.append(('uri-no-leading-slash', uri[1:]))
     return comps, uri, curi, wire, forms
@@ -203,6 +207,10 @@ def plan(tier, seed):
         for lo in range(0, 65536, 16384):
             units.append({'kind': 'bytes2', 't': t, 'lo': lo, 'hi': lo + 16384})
     units.append({'kind': 'bytes1'})
+    if tier == 'thorough':
+        # every 3-byte value under the generic type (escaping decisions depend on neighbours only through '.' runs)
+        for lo in range(0, 1 << 24, 1 << 16):
+            units.append({'kind': 'bytes3', 't': 8, 'lo': lo, 'hi': lo + (1 << 16)})
     units.append({'kind': 'vlen'})
     for lo in range(0, len(NUMBERS), 12000):
         units.append({'kind': 'numbers', 'lo': lo, 'hi': min(len(NUMBERS), lo + 12000)})
@@ -215,7 +223,7 @@ def plan(tier, seed):
         'rule': 'complete enumeration of the sub-spaces listed in the module docstring; distinct by construction. Non-trivial = '
                 'component type in 3-byte form, value needing percent-escapes, typed number, empty component, or a pair in proper '
                 'prefix relation.',
-        'bounds': {'types': '1..65535', 'one_and_two_byte_values': 'all, under 4 types', 'numbers': len(NUMBERS),
+        'bounds': {'types': '1..65535', 'one_and_two_byte_values': 'all, under 4 types', 'three_byte_values': 'all 2^24 under type 8' if tier == 'thorough' else 'thorough tier only', 'numbers': len(NUMBERS),
                    'names3': len(SPACE3), 'names8': 511, 'pairs': len(SPACE3) ** 2, 'value_lengths': '0..300, 65535, 65536'},
         'assumptions': ['URI format as documented by the library (empty component written as nothing between two slashes, not "...")',
                         'ordering is claimed for library-produced bytearray components and lists of them (memoryviews do not support <)'],
@@ -244,6 +252,15 @@ def unit(arg):
             if any(b not in UNRESERVED for b in v):
                 acc.nontrivial += 1
         acc.sample({'type': t, 'two_byte_values': [arg['lo'], arg['hi']]})
+    elif k == 'bytes3':
+        t = arg['t']
+        for x in range(arg['lo'], arg['hi']):
+            v = x.to_bytes(3, 'big')
+            check_component(t, v, viol, 'bytes')
+            acc.evaluations += 1
+            if any(b not in UNRESERVED for b in v):
+                acc.nontrivial += 1
+        acc.sample({'type': t, 'three_byte_values': [arg['lo'], arg['hi']]})
     elif k == 'bytes1':
         for t in (8, 1, 2, 32, 0x32, 253, 65535):
             for x in range(256):
